@@ -334,9 +334,15 @@ func (f *FnEnc) doBinOp(x *ssa.BinOp) {
 	}
 	switch x.Op {
 	case token.ADD:
+		// sums and differences end up inside index terms: keep them opaque constants so that the
+		// solver's arithmetic normalisation does not change the shape of (+ off i) patterns
+		f.opaqueInt = true
 		f.setVal(x, wrapInt(bt, fmt.Sprintf("(+ %s %s)", a.T, b.T), x.Op))
+		f.opaqueInt = false
 	case token.SUB:
+		f.opaqueInt = true
 		f.setVal(x, wrapInt(bt, fmt.Sprintf("(- %s %s)", a.T, b.T), x.Op))
+		f.opaqueInt = false
 	case token.MUL:
 		f.setVal(x, wrapInt(bt, fmt.Sprintf("(* %s %s)", a.T, b.T), x.Op))
 	case token.QUO, token.REM:
